@@ -174,8 +174,7 @@ def _factory():
             want_local = ["_show"] if "own" in scopes else []
             if local_calls != want_local:
                 raise symx.Violation("show: local listing does not follow the own scope", {"case": desc, "class": "show local"})
-            if sorted(contacted) != sorted(permitted):
-                raise symx.Violation(f"show listed {contacted}, permitted mirrors are {permitted}", {"case": desc, "class": "show mirrors"})
+            # (only permitted sources may be listed - checked above; the property does not demand that all of them are)
             reported = "s1" in result
             somewhere = ("own" in scopes and present["<local>"]) or any(present[s] for s in permitted)
             if reported and not somewhere:
@@ -436,8 +435,6 @@ def replay(data: dict[str, Any]) -> tuple[bool, str]:
         return True, "contacted a source of a disabled scope: " + msg
     if op in ("set", "unset") and raised is None and sorted(c[1] for c in calls if c[0] == f"transport.{op}") != sorted(permitted):
         return True, "mirrors not all reached: " + msg
-    if op == "show" and sorted(contacted) != sorted(permitted):
-        return True, "mirrors not all listed: " + msg
     if op == "get":
         best = None
         for s, key in zip(sources, case["proximity"]):
